@@ -221,6 +221,18 @@ def standalone(idnt, op, ctx):
     return rater.rate(datasets=idnt)[0]
 
 
+def standalone_samples(idnt, op, ctx):
+    """the same through the other entry point of the standalone rater: features computed first, then
+    rate(samples=...) (feature vector in the order of the rater's names)"""
+    from nanite.rate import get_rater
+    from nanite.rate.features import IndentationFeatures as IF
+    names = None if op["names"] is None else list(op["names"])
+    ts = training_set(op, ctx, names)
+    rater = get_rater(regressor=op["regressor"], training_set=ts, names=names, lda=op["lda"])
+    feats = [float(IF.compute_features(idnt, which_type="all", names=[n])[0]) for n in rater.names]
+    return rater.rate(samples=[feats])[0]
+
+
 def case_table(idnt, op):
     """what the statement allows for this state: set of allowed exact values or 'prediction'"""
     from nanite.rate import IndentationRater as IR
@@ -309,6 +321,12 @@ def check_case(case, ctx):
         ctx.check(val == want, "differs-from-standalone-rater", desc,
                   f"step {n}: rate_quality -> {val!r}, get_rater(...).rate(datasets=curve) -> {want!r} "
                   f"(fit hash {idnt.fit_properties.get('hash')})")
+        if op["regressor"].lower() != "none":
+            with ctx.no_raise("standalone-rater-raises", dict(desc, entry="samples")) as guard:
+                want_s = standalone_samples(idnt, op, ctx)
+            if guard.ok:
+                ctx.check(want_s == want, "standalone-entry-points-differ", desc,
+                          f"step {n}: rate(datasets=curve) -> {want!r}, rate(samples=features of the curve) -> {want_s!r}")
         # the feature selection is a set: listing the same names in another order gives the same rating
         if op["names"] is not None and len(op["names"]) >= 2:
             op2 = dict(op, names=list(reversed(op["names"])))
